@@ -92,7 +92,7 @@ func c05Check(env *core.Env, ci any) (res core.Result) {
 func init() {
 	core.Register(&core.Prop{
 		ID: "C05",
-		Rule: "rapid-generated non-void functions, &-receiver methods and function literals (1-3 per program) whose bodies nest if / else-if / else, int match and enum match with and without default arm, fuelled while loops, `while true { ...; break; }`, loops guarded by a mutable flag that is re-armed after the loop, for-range loops (also with a body that always returns) with break/continue, prints and early returns (depth <= 3); a third of the bodies that do not syntactically return on all paths are left without a final return. main calls each on 4-9 generated argument tuples (two ints in [-3,6] and an enum value) that drive the branches. Oracle: the reference interpreter executes the calls; if some call reaches the end of a non-void body, the compiler must reject the program (`ferret -t`); otherwise an accepted program must print exactly the interpreter's return values. Rejections of other programs are never failures. non-trivial = >= 2 control constructs; distinct = program text",
+		Rule: "rapid-generated non-void functions, &-receiver methods and function literals - standing directly in main, inside one or two enclosing function literals, inside a function, a method or a loop body - (1-3 per program) whose bodies nest if / else-if / else, int match and enum match with and without default arm, fuelled while loops, `while true { ...; break; }`, loops guarded by a mutable flag that is re-armed after the loop, for-range loops (also with a body that always returns) with break/continue, prints and early returns (depth <= 3); a third of the bodies that do not syntactically return on all paths are left without a final return. main calls each on 4-9 generated argument tuples (two ints in [-3,6] and an enum value) that drive the branches. Oracle: the reference interpreter executes the calls; if some call reaches the end of a non-void body, the compiler must reject the program (`ferret -t`); otherwise an accepted program must print exactly the interpreter's return values. Rejections of other programs are never failures. non-trivial = >= 2 control constructs; distinct = program text",
 		Gen:   c05Gen,
 		New:   func() any { return &c05Case{} },
 		Check: c05Check,
